@@ -20,7 +20,7 @@ except Exception:  # pragma: no cover
 
 META = {
     "technique": "Lean 4 algebra over the model of the energy/charge/dipole assembly (index_add semantics, any number of pairs/atoms) + function-level correspondence + cross-observable identity probes on real calculations",
-    "level_text": "Theorems: Etot = Eelec + sum of the molecule's pair core energies (+Eexc), Hf identity, gap = e[nocc]-e[nocc-1], charges sum to sum(Z_valence) - tr P, dipole translation law mu(R+t) = mu(R) + Q t, for any batch layout. The model functions are compared with the real total_energy/heat_formation/atomic_charges on random inputs (compiled Lean driver), and every identity is re-evaluated on the attributes of `molecule` after real calculations across methods, spins, charges, batches and active states.",
+    "level_text": "Theorems: Etot = Eelec + sum of the molecule's pair core energies (+Eexc), Hf identity, gap = e[nocc]-e[nocc-1], charges sum to sum(Z_valence) - tr P, dipole translation law mu(R+t) = mu(R) + Q t, for any batch layout. The model functions are compared with the real total_energy/heat_formation/atomic_charges on random inputs (compiled Lean driver), and every identity is re-evaluated on the attributes of `molecule` after real calculations across methods, spins, charges, batches and active states. Translator tie (regenerated every run): total_energy, heat_formation, elec_energy_isolated_atom and the summands, reduction axes and factors of elec_energy (closed and open shell) are translated statement by statement and proved equal to the model definitions (ObsTie, rfl).",
     "level_note": "Trusted: Lean kernel; harness; float reductions compared to 1e-12 relative (sum order is torch's). 'e_mo are eigenvalues of the reported Fock operator' is validated numerically (LAPACK), tolerance tied to scf_eps. PM6 d-orbital dipole is not implemented in the package (skipped there).",
     "design_ref": "DESIGN.md section 5 C14",
 }
@@ -329,7 +329,12 @@ def corr_functions(ctx: Ctx, drv):
 
 
 def run(ctx: Ctx):
+    from ..translate import gen as _gen
+    _gen.regenerate(ctx, ["ObsGen"])
     leanproj.check_theorems(ctx, MODULE, THEOREMS)
+    from .registry import THEOREMS_OBSTIE
+    # translator tie: total_energy, heat_formation, elec_energy_isolated_atom and the summands/axes/factors of elec_energy, as they stand in the source
+    leanproj.check_theorems(ctx, "PyseqmVerif.Properties.ObsTie", THEOREMS_OBSTIE)
     drv = leanproj.Driver()
     try:
         try:
